@@ -265,6 +265,19 @@ def r3_state(ctx):
                     detail = {k: T.show(v)[:140] for k, v in vals.items()}
                 ctx.obligation(ok)
                 (ctx.ok if ok else ctx.violation)('C13.R3', 'C13.R3/%s/state-built-from-its-own-cleaned-specification' % fname, fn.path, fn.site(), detail, cfg)
+                # the final-state counter advances exactly when the state just pushed is final
+                cnt = [(hv, ev) for hv, ev in bmap if hv[0] == 'var' and hv[1].startswith('num_final_states@')]
+                okc = len(cnt) == 1 and cnt[0][1] == I(0) and len(states) == 1
+                if okc:
+                    c_, fin = cnt[0][0], dict(zip(cr.field_names(AU + 'State'), states[0][3]))['is_final']
+                    if ip.entails(bst, fin):
+                        okc = ip.entails(bst, eq(cur.get(c_, c_), T.mk_add(c_, I(1))))
+                    elif ip.entails(bst, NOT(fin)):
+                        okc = ip.entails(bst, eq(cur.get(c_, c_), c_))
+                    else:
+                        okc = False
+                ctx.obligation(okc)
+                (ctx.ok if okc else ctx.violation)('C13.R4', 'C13.R4/%s/final-state-count-advances-exactly-for-final-states' % fname, fn.path, fn.site(), {'counter': [T.show(a) for a, b in cnt]}, cfg)
             ctx.obligation(n >= 1)
             (ctx.ok if n >= 1 else ctx.violation)('C13.R3', 'C13.R3/%s/push-site-found' % fname, fn.path, fn.site(), None, cfg)
             # final aggregate: initial_state 0, num_states = size
@@ -280,7 +293,8 @@ def r3_state(ctx):
                 if isinstance(v, X.Adt) and v.path == AU + 'Automaton':
                     ini = field(ip, o.state, v, 'initial_state')
                     ns = field(ip, o.state, v, 'num_states')
-                    ok = ini == I(0) and ns == T.fld(A(0), 'size', 'usize')
+                    nf = field(ip, o.state, v, 'num_final_states')
+                    ok = ini == I(0) and ns == T.fld(A(0), 'size', 'usize') and isinstance(nf, tuple) and (nf == I(0) or (nf[0] == 'var' and nf[1].startswith('num_final_states@')))
                     ctx.obligation(ok)
                     (ctx.ok if ok else ctx.violation)('C13.R4', 'C13.R4/%s/initial-state-zero-and-size' % fname, fn.path, fn.site(), {'initial_state': T.show(ini), 'num_states': T.show(ns)}, cfg)
         # make_successor: result[class_of_char(p, t.0.pick())] = t.1 for the same transition t
